@@ -370,8 +370,82 @@ func init() {
 		old(c)
 		reopenKeepsSnapshotIndex(c, "C05.R7")
 		c05truncationBound(c)
+		c05shadowedError(c)
 	}
-	All["C05"].Rules += " R7 R8"
+	All["C05"].Rules += " R7 R8 R9"
+}
+
+// c05shadowedError — C05.R9.  A write is acknowledged when the chain coordinator → store → raft
+// returns a nil error.  A function on that chain that returns a local error variable which is
+// declared but never assigned — because every assignment in the body was turned into a shadowing
+// `x, err := …` inside a loop or branch — returns nil on the paths that were meant to report the
+// failure (retry time-out, unreachable owner): the write is acknowledged though no store took it.
+func c05shadowedError(c *an.Ctx) {
+	r := c.Rule("C05.R9", "K-ERRFLOW", "write path (coordinator, engine, raft packages): no function returns an error variable that is declared but never assigned while an inner scope shadows it")
+	n := 0
+	for _, d := range c.P.AllDecls() {
+		if !an.InPkg(d, "coordinator", "engine", "lib/raftconn", "lib/raftlog", "lib/netstorage") {
+			continue
+		}
+		n++
+		info := d.Pkg.TypesInfo
+		errT := types.Universe.Lookup("error").Type()
+		// zero-declared error variables of the function body
+		zero := map[types.Object]*ast.Ident{}
+		ast.Inspect(d.Decl.Body, func(m ast.Node) bool {
+			if vs, ok := m.(*ast.ValueSpec); ok && len(vs.Values) == 0 {
+				for _, id := range vs.Names {
+					if o := info.Defs[id]; o != nil && types.Identical(o.Type(), errT) {
+						zero[o] = id
+					}
+				}
+			}
+			return true
+		})
+		if len(zero) == 0 {
+			continue
+		}
+		assigned := map[types.Object]bool{}
+		shadowed := map[string]bool{}
+		returned := map[types.Object]ast.Node{}
+		ast.Inspect(d.Decl.Body, func(m ast.Node) bool {
+			switch x := m.(type) {
+			case *ast.AssignStmt:
+				for _, l := range x.Lhs {
+					if id, ok := l.(*ast.Ident); ok {
+						if o := info.Uses[id]; o != nil {
+							assigned[o] = true
+						}
+						if o := info.Defs[id]; o != nil && types.Identical(o.Type(), errT) {
+							shadowed[id.Name] = true
+						}
+					}
+				}
+			case *ast.UnaryExpr:
+				if id, ok := x.X.(*ast.Ident); ok && x.Op.String() == "&" {
+					if o := info.Uses[id]; o != nil {
+						assigned[o] = true
+					}
+				}
+			case *ast.ReturnStmt:
+				for _, e := range x.Results {
+					if id, ok := ast.Unparen(e).(*ast.Ident); ok {
+						if o := info.Uses[id]; o != nil {
+							returned[o] = x
+						}
+					}
+				}
+			}
+			return true
+		})
+		for o, id := range zero {
+			if ret, ok := returned[o]; ok && !assigned[o] && shadowed[id.Name] {
+				r.Fail(d.Name()+": returns never-assigned "+id.Name, c.P.Pos(ret.Pos()), "%s returns the error variable %s, which is declared but never assigned (an inner `%s :=` shadows it): the function reports success on the paths that were meant to fail", d.Name(), id.Name, id.Name)
+			}
+		}
+	}
+	r.AddSites(n)
+	r.Floor(500, "functions of the write-path packages")
 }
 
 // c05truncationBound: the index up to which the replication log may be cut is
